@@ -15,7 +15,7 @@
    ADD_PROVIDER send). *)
 From Coq Require Import List NArith Bool.
 From V.gen Require Consts.
-From V.C16 Require Import Model Proofs.
+From V.C16 Require Import Model Proofs Obl.
 Import ListNotations.
 Open Scope N_scope.
 
@@ -85,20 +85,41 @@ Theorem C16_drain_progress :
 Proof. exact serve_progress. Qed.
 Print Assumptions C16_drain_progress.
 
+(* at most one obligation per (kind, query, peer): over pending_dials, pending_actions and the executor
+   together, after every history with fresh query ids and well-formed commands (`cmd_ok`: the routing
+   table never hands out the local peer as a seed; put_record_to_peers is not given a peer twice) *)
+Theorem C16_at_most_one :
+  forall g m es k q p,
+  fresh_ids [] es -> cmds_ok g es -> (cnt (fst (run g (st0 m) es)) k q p <= 1)%nat.
+Proof. exact at_most_one. Qed.
+Print Assumptions C16_at_most_one.
+
+(* hence exactly one: a peer a live query waits for has one outstanding obligation of that query *)
+Theorem C16_exactly_one :
+  forall g m es q x p,
+  1 <= g_alpha g -> fresh_ids [] es -> cmds_ok g es ->
+  let s := fst (run g (st0 m) es) in
+  aget q (eng s) = Some x -> In p (waiting x) -> cnt s (negb (is_track x)) q p = 1%nat.
+Proof. exact exactly_one. Qed.
+Print Assumptions C16_exactly_one.
+
 (* quorum honesty: a PutRecordSuccess / AddProviderSuccess for q is only emitted when, for at least
-   clamp(requested quorum, number of targets) DISTINCT target peers of the send phase, an executor
-   future working for q has reported a completed send (`sends` collects exactly the SendSuccess /
-   AssumeSendSuccess / ReadSuccess completions of futures carrying a query id) *)
+   clamp(requested quorum, number of targets) DISTINCT TARGET peers of the send phase, an executor
+   future created for that peer's SendPutValue / SendAddProvider action has reported a completed send.
+   `put_sends` collects exactly the SendSuccess / AssumeSendSuccess / ReadSuccess completions of
+   send-phase futures (FReqEat / FSend); a late FIND_NODE reply of the lookup phase does not count
+   (it cannot even reach the counter: by C16_at_most_one no request future of the lookup exists for
+   a target once the send phase has started) *)
 Theorem C16_quorum_honest :
   forall g m es q,
-  fresh_ids [] es ->
+  fresh_ids [] es -> cmds_ok g es ->
   let outs := snd (run g (st0 m) es) in
   In (OPutSuccess q) outs \/ In (OProvSuccess q) outs ->
   exists targets qr S,
     find_quorum q es = Some qr /\ In (OTrack q targets) outs /\ NoDup S /\
     clamp qr (N.of_nat (length targets)) <= N.of_nat (length S) /\
-    (forall p, In p S -> In (q, p) (sends g (st0 m) es) /\ In p targets).
-Proof. exact quorum_honest. Qed.
+    (forall p, In p S -> In (q, p) (put_sends g (st0 m) es) /\ In p targets).
+Proof. exact quorum_honest_put. Qed.
 Print Assumptions C16_quorum_honest.
 
 (* the shipped parallelism factor and executor timeouts satisfy what is assumed above *)
